@@ -48,6 +48,9 @@ pub struct Ctx {
     pub tag: String,
     /// replay file to re-check instead of generating a workload
     pub replay: Option<PathBuf>,
+    /// child mode: (index of the `run_sharded` call, shard) to execute, and where to put the result
+    pub shard: Option<(usize, usize)>,
+    pub acc_out: Option<PathBuf>,
 }
 
 #[derive(Clone, Debug)]
@@ -76,7 +79,7 @@ pub fn load_known(root: &std::path::Path) -> Vec<Known> {
     out
 }
 
-#[derive(Clone, Debug)]
+#[derive(Clone, Debug, serde::Serialize, serde::Deserialize)]
 pub struct Violation {
     pub signature: String,
     pub what: String,
@@ -84,7 +87,7 @@ pub struct Violation {
 }
 
 /// Per-shard (thread) accumulator; merged into one `Report` at the end.
-#[derive(Default, Clone, Debug)]
+#[derive(Default, Clone, Debug, serde::Serialize, serde::Deserialize)]
 pub struct Acc {
     pub evaluations: u64,
     pub nontrivial: HashSet<u64>,
@@ -338,28 +341,80 @@ impl Report {
     }
 }
 
-/// Run `f(shard)` on `jobs` threads and merge the accumulators.
-pub fn run_sharded<F>(jobs: usize, f: F) -> Acc
+static SHARDED_CALLS: std::sync::atomic::AtomicUsize = std::sync::atomic::AtomicUsize::new(0);
+
+/// Run `f(shard)` for every shard and merge the accumulators.
+///
+/// Each shard runs in its **own child process** of this executable (the library under test leaks
+/// its reference-counted graphs, so a long workload must not live in one process). The parent
+/// re-invokes itself with `--shard <call>:<shard>`; a child executes exactly that shard of that
+/// `run_sharded` call and exits.
+pub fn run_sharded<F>(ctx: &Ctx, f: F) -> Acc
 where
     F: Fn(usize) -> Acc + Sync,
 {
+    let call = SHARDED_CALLS.fetch_add(1, std::sync::atomic::Ordering::SeqCst);
+    if let Some((want_call, shard)) = ctx.shard {
+        // ---- child
+        if call < want_call {
+            return Acc::new();
+        }
+        let acc = std::thread::scope(|s| {
+            std::thread::Builder::new()
+                .stack_size(256 << 20)
+                .spawn_scoped(s, || f(shard))
+                .expect("spawn")
+                .join()
+                .unwrap_or_else(|_| {
+                    let mut a = Acc::new();
+                    a.inconclusive("harness-thread-panicked");
+                    a
+                })
+        });
+        let out = ctx.acc_out.clone().expect("--acc-out");
+        std::fs::write(&out, serde_json::to_string(&acc).expect("acc json")).expect("write acc");
+        std::process::exit(0);
+    }
+    // ---- parent
+    let jobs = ctx.jobs;
+    let dir = ctx.root.join("work").join(format!("acc-{}-{}", std::process::id(), call));
+    let _ = std::fs::create_dir_all(&dir);
     let mut total = Acc::new();
     std::thread::scope(|s| {
         let handles: Vec<_> = (0..jobs)
             .map(|i| {
-                let f = &f;
-                std::thread::Builder::new()
-                    .stack_size(64 << 20)
-                    .spawn_scoped(s, move || f(i))
-                    .expect("spawn")
+                let dir = dir.clone();
+                s.spawn(move || {
+                    let out = dir.join(format!("{i}.json"));
+                    let status = std::process::Command::new(&ctx.self_exe)
+                        .arg("check")
+                        .arg(&ctx.prop)
+                        .args(["--tier", ctx.tier.as_str(), "--seed", &ctx.seed.to_string()])
+                        .arg("--root")
+                        .arg(&ctx.root)
+                        .args(["--jobs", &jobs.to_string()])
+                        .arg("--rva-checked")
+                        .arg(&ctx.rva_checked)
+                        .arg("--rva-release")
+                        .arg(&ctx.rva_release)
+                        .args(["--shard", &format!("{call}:{i}")])
+                        .arg("--acc-out")
+                        .arg(&out)
+                        .stdout(std::process::Stdio::null())
+                        .status();
+                    let acc: Option<Acc> = std::fs::read_to_string(&out).ok().and_then(|t| serde_json::from_str(&t).ok());
+                    (status.ok().and_then(|s| s.code()), acc)
+                })
             })
             .collect();
         for h in handles {
             match h.join() {
-                Ok(a) => total.merge(a),
-                Err(_) => total.inconclusive("harness-thread-panicked"),
+                Ok((Some(0), Some(a))) => total.merge(a),
+                Ok((code, _)) => total.inconclusive(format!("shard-process-failed:{code:?}")),
+                Err(_) => total.inconclusive("shard-thread-panicked"),
             }
         }
     });
+    let _ = std::fs::remove_dir_all(&dir);
     total
 }
